@@ -328,11 +328,11 @@ namespace adept {
       const T* left_start;
       if (left_order == ROW_MAJOR) {
 	order = BlasRowMajor;
-	left_start = left_ptr-UDiags;
+	left_start = left_ptr-LDiags;
       }
       else {
 	order = BlasColMajor;
-	left_start = left_ptr-LDiags;
+	left_start = left_ptr-UDiags;
       }
       Array<1,T,(LIsActive||RIsActive)> ans(right.dimension(0));
       cppblas_gbmv(order, BlasNoTrans, left_dim, left_dim, LDiags, UDiags,
@@ -397,11 +397,11 @@ namespace adept {
       const T* left_start;
       if (left_order == ROW_MAJOR) {
 	order = BlasRowMajor;
-	left_start = left_ptr-UDiags;
+	left_start = left_ptr-LDiags;
       }
       else {
 	order = BlasColMajor;
-	left_start = left_ptr-LDiags;
+	left_start = left_ptr-UDiags;
       }
       Array<2,T,(LIsActive||RIsActive)> ans(right.dimension(0),right.dimension(1));
       for (Index i = 0; i < right.dimension(1); ++i) {
